@@ -1,5 +1,6 @@
 import Driver.Codec
 import Driver.Ops.Parse
+import Driver.Ops.Filter
 /-! op `run`: settings + journal (+ wanted outputs) ⇒ load status and outputs.
     The journal is given as an AST (`txns`: the semantic layers only), as text (`text`: parsed by
     `Model/Syntax`, then loaded) or as a list of files (`files`: `paths_to_txns`).  With `astcheck` and both
@@ -57,8 +58,13 @@ def opRun (table : List (String × OutputFn)) (j : Json) : R Json := do
   match res with
   | .err => pure (Json.mkObj (status "ERR" ++ extra))
   | .undef => pure (Json.mkObj (status "UNDEF" ++ extra))
-  | .ok (ts, st') =>
-    pure (Json.mkObj (status "OK" ++ [("n", Json.num (JsonNumber.fromNat ts.length)),
+  | .ok (ts0, st') =>
+    -- optional transaction filter (`TxnData::filter`): outputs are computed from the selected set
+    let ts ← match optField j "mfilter" with
+      | some f => do pure (filterTxns simpleMatch (← filterOfJson f) ts0)
+      | none => pure ts0
+    pure (Json.mkObj (status "OK" ++ [("n", Json.num (JsonNumber.fromNat ts0.length)),
+      ("selected", Json.num (JsonNumber.fromNat ts.length)),
       ("out", Json.mkObj (want.map (fun w => (w, runOutput table j st' ts w))))] ++ extra))
 
 end Ops
